@@ -24,8 +24,10 @@ Document ids starting with an underscore are refused with 400 illegal_docid (as 
 
 Fault injection (per logical request, armed by the harness with `arm`): answer with a given
 status and a CouchDB-style JSON error body, answer 200 with a body that is not JSON, or drop the
-connection without an answer (every retry of the same request is dropped too).  A faulted request
-is never processed.
+connection without an answer (every retry of the same request is dropped too).  Such a faulted request
+is never processed.  ("lost",): the request IS processed as usual, but the connection is closed instead
+of sending the answer (the answer is lost on the wire); a repetition of the request is an ordinary
+further request.
 """
 import base64
 import hashlib
@@ -89,7 +91,7 @@ class FakeCouchDB:
     # ---- harness interface
     def arm(self, plan=None):
         """plan: {logical request index (0-based, counted from now): fault}
-        fault = ("status", code) | ("garbage",) | ("garbage", "empty" | "truncated") | ("drop",)"""
+        fault = ("status", code) | ("garbage",) | ("garbage", "empty" | "truncated") | ("drop",) | ("lost",)"""
         with self.lock:
             self.plan = dict(plan or {})
             self.n = 0
@@ -151,6 +153,9 @@ class _Handler(BaseHTTPRequestHandler):
     # ---- plumbing
     def _reply(self, status, obj=None, headers=None, raw=None, head=False):
         st = self.server_state
+        if getattr(self, "_lost", False):          # processed, but the answer never reaches the client
+            self._lost = False
+            return self._drop()
         if obj is None and raw is None and status >= 400:
             e, r = REASONS.get(status, ("error", "HTTP %d" % status))
             obj = {"error": e, "reason": r}
@@ -194,6 +199,7 @@ class _Handler(BaseHTTPRequestHandler):
                     st.drops = 0
                 return self._drop()
             st.n += 1
+            self._lost = bool(fault and fault[0] == "lost")
             if fault and fault[0] == "status":
                 return self._reply(fault[1], head=head)
             if fault and fault[0] == "garbage":
